@@ -165,6 +165,9 @@ def brokerVerdicts (pre : Server) (ws : List String) (core flags : String) : Lis
         let authOK := match pre.auth with | .allow => true | .none => false | .deny id => cid != id
         let c13c := if success && !authOK then [fail "C13" "-" "success CONNACK although no authentication hook allowed the client"] else []
         let c13d := if !success && !io.closed.contains n then [fail "C13" "-" "refused connection left open"] else []
+        -- a CONNECT that violates the protocol never yields a session: MQTT 3.x, empty client id, Clean Session 0
+        let c13e := if success && ver < 5 && cid.isEmpty && clean != "1" then
+            [fail "C13" "-" "a CONNECT with a zero-length client id and Clean Session 0 was accepted"] else []
         -- C14
         let existed := match assocGet pre.clients cid with
           | some e => let o := getObj pre e; !(o.clean && o.ver < 5)
@@ -180,7 +183,7 @@ def brokerVerdicts (pre : Server) (ws : List String) (core flags : String) : Lis
         let c35 := if success && pre.info.connected ≥ pre.caps.maximumClients && (pre.clients.filter fun (_, i) => (getObj pre i).isOpen && !(getObj pre i).inline).length ≥ pre.caps.maximumClients then
             [fail "C35" "-" "connection established although the configured maximum was reached"] else []
         let _ := ver; let _ := kv
-        c13a ++ c13b ++ c13c ++ c13d ++ c14 ++ c35
+        c13a ++ c13b ++ c13c ++ c13d ++ c13e ++ c14 ++ c35
       | _, _, _ => []
     | "bk.send" :: n :: typ :: kv =>
       match n.toNat? with
